@@ -33,7 +33,7 @@ def spell(vec, how, D):
         return tuple(a)
     if how == "int" and all(math.isfinite(v) and v == int(v) for v in a):
         return np.array([int(v) for v in a])
-    if how == "scalar" and D == 1:
+    if how == "scalar" and D == 1 and len(a) == 1:      # a malformed (wrong-length) vector has no scalar spelling
         return a[0]
     return np.array(a)
 
